@@ -81,6 +81,18 @@ where
         let mut decoder = ZlibDecoder::new(self.input);
         let mut buffer = Vec::with_capacity(expected_output_size);
         decoder.read_to_end(&mut buffer)?;
+        if buffer.len() != expected_output_size {
+            return Err(AsepriteParseError::InvalidInput(format!(
+                "Invalid size of decompressed data. Expected: {}, Actual: {}{}",
+                expected_output_size,
+                buffer.len(),
+                if buffer.len() > expected_output_size {
+                    " or more"
+                } else {
+                    ""
+                }
+            )));
+        }
         Ok(buffer)
     }
 }
